@@ -162,20 +162,21 @@ func init() {
 		if !found {
 			return "", fmt.Errorf("const flushLimit not found in promMetricsProtoDec.Decode")
 		}
-		// the comparison that uses it must be `points >= flushLimit`
-		cmpOK := false
+		// the comparison that uses it: `points >= flushLimit` (or >)
+		pointsOp := ""
 		ast.Inspect(fd.Body, func(n ast.Node) bool {
 			if is, ok := n.(*ast.IfStmt); ok {
-				if be, ok := is.Cond.(*ast.BinaryExpr); ok && be.Op == token.GEQ && exprText(be.X) == "points" && exprText(be.Y) == "flushLimit" {
-					cmpOK = true
+				if be, ok := is.Cond.(*ast.BinaryExpr); ok && (be.Op == token.GEQ || be.Op == token.GTR) && exprText(be.X) == "points" && exprText(be.Y) == "flushLimit" {
+					pointsOp = map[token.Token]string{token.GEQ: "≥", token.GTR: ">"}[be.Op]
 				}
 			}
 			return true
 		})
-		if !cmpOK {
-			return "", fmt.Errorf("`if points >= flushLimit` not found in promMetricsProtoDec.Decode")
+		if pointsOp == "" {
+			return "", fmt.Errorf("`if points >= flushLimit` (or >) not found in promMetricsProtoDec.Decode")
 		}
-		fmt.Fprintf(&b, "/-- remote-write: `points >= flushLimit` flushes the open series -/\ndef flushPoints : Nat := %d\n", flushLimit)
+		fmt.Fprintf(&b, "/-- remote-write: `flushLimit` -/\ndef flushPoints : Nat := %d\n", flushLimit)
+		fmt.Fprintf(&b, "/-- remote-write: the test on the point counter (after `points++`) that flushes the open series -/\ndef pointsHit (points : Nat) : Bool := decide (points %s flushPoints)\n", pointsOp)
 		// --- onEntries: byte threshold and per-row constants
 		_, f, err = parseFile("writer/utils/unmarshal/builder.go")
 		if err != nil {
@@ -186,12 +187,14 @@ func init() {
 			return "", fmt.Errorf("parserDoer.onEntries not found")
 		}
 		var flushBytes, rowBytes, seriesBytes int64 = -1, -1, -1
+		bytesOp := ""
 		ast.Inspect(fd.Body, func(n ast.Node) bool {
 			switch x := n.(type) {
 			case *ast.IfStmt:
-				if be, ok := x.Cond.(*ast.BinaryExpr); ok && be.Op == token.GTR && exprText(be.X) == "p.tsSpl.spl.Size+p.tsSpl.ts.Size" {
+				if be, ok := x.Cond.(*ast.BinaryExpr); ok && (be.Op == token.GTR || be.Op == token.GEQ) && exprText(be.X) == "p.tsSpl.spl.Size+p.tsSpl.ts.Size" {
 					if v, ok := constInt(be.Y); ok {
 						flushBytes = v
+						bytesOp = map[token.Token]string{token.GEQ: "≥", token.GTR: ">"}[be.Op]
 					}
 				}
 			case *ast.AssignStmt:
@@ -227,7 +230,8 @@ func init() {
 		if seriesBytes < 0 {
 			return "", fmt.Errorf("`p.tsSpl.ts.Size += <const> + len(_labels)` not found in onEntries")
 		}
-		fmt.Fprintf(&b, "/-- onEntries: `spl.Size + ts.Size > flushBytes` emits the open requests -/\ndef flushBytes : Nat := %d\n", flushBytes)
+		fmt.Fprintf(&b, "/-- onEntries: byte threshold -/\ndef flushBytes : Nat := %d\n", flushBytes)
+		fmt.Fprintf(&b, "/-- onEntries: the test on `spl.Size + ts.Size` that emits the open requests -/\ndef bytesHit (size : Nat) : Bool := decide (size %s flushBytes)\n", bytesOp)
 		fmt.Fprintf(&b, "/-- onEntries: `spl.Size += len(message[i]) + rowBytes` -/\ndef rowBytes : Nat := %d\n", rowBytes)
 		fmt.Fprintf(&b, "/-- onEntries: `ts.Size += seriesBytes + len(labels document)` -/\ndef seriesBytes : Nat := %d\n", seriesBytes)
 		// --- sanitiser
